@@ -207,6 +207,26 @@ def tokToJson : Tok → Json
   | .num i => Json.arr #["n", Json.num (Lean.JsonNumber.fromInt i)]
   | .str s => Json.arr #["s", .str s]
 
+/-- `cls.key`: the class name (last component of the dumped name), lower-cased -/
+def keyOfCls (c : String) : String := ((c.splitOn ".").getLast?.getD c).toLower
+
+def hashRules : HashRules where
+  rawArgs := fun c => hashRawArgClasses.contains c
+  keyOf := keyOfCls
+  lower := String.toLower
+
+partial def eqkToJson : EqK → Json
+  | .node k items => Json.arr #[.str "n", .str k, .arr (items.map fun (a, b) =>
+      Json.arr #[.str a, match b with | none => .null | some x => eqkToJson x]).toArray]
+  | .str s => Json.arr #[.str "s", .str s]
+  | .int i => Json.arr #[.str "i", Json.num (Lean.JsonNumber.fromInt i)]
+  | .dtype s => Json.arr #[.str "d", .str s]
+  | .unhashable => .str "unhashable"
+
+def clsOf : Val → String
+  | .node cls .. => cls
+  | _ => ""
+
 def handle (line : String) : Except String String := do
   let j ← Json.parse line
   let op ← (← j.getObjVal? "op").getStr?
@@ -260,6 +280,13 @@ def handle (line : String) : Except String String := do
       | some (v, []) => (render v == toks)
       | _ => false
     if got == want && back then pure "ok" else pure ("diff " ++ got.compress)
+  | "eq" =>
+    -- the model of `a == b`: same class and same `__hash__` fold
+    let a ← valOfJson (← j.getObjVal? "a")
+    let b ← valOfJson (← j.getObjVal? "b")
+    let want ← (← j.getObjVal? "expect").getBool?
+    let got := clsOf a == clsOf b && eqkToJson (a.nf hashRules) == eqkToJson (b.nf hashRules)
+    if got == want then pure "ok" else pure ("diff " ++ toString got ++ " " ++ (eqkToJson (a.nf hashRules)).compress)
   | "norm" =>
     let t ← valOfJson (← j.getObjVal? "tree")
     pure (valToJson t.norm).compress
